@@ -39,7 +39,7 @@ func runC13(c *fw.Ctx) {
 				if kind != "ce" && cl > 1 {
 					continue
 				}
-				reps := c.Pick(60, 1500)
+				reps := c.Pick(60, 4000)
 				if kind != "ce" {
 					reps *= 4
 				}
@@ -51,7 +51,7 @@ func runC13(c *fw.Ctx) {
 		}
 	}
 	// ---- (ii): upstream programs ----
-	for i := 0; i < c.Pick(6000, 150000); i++ {
+	for i := 0; i < c.Pick(6000, 400000); i++ {
 		c.Case(func(k *fw.K) { c13Upstream(k) })
 	}
 }
